@@ -49,8 +49,14 @@ func Main(p Plan) {
 	if os.Getenv("VERIF_ONLY") != "" {
 		names = strings.Split(os.Getenv("VERIF_ONLY"), ",")
 	}
-	for _, n := range names {
-		st := explore.Explore(explore.Config{Scenario: key, Param: n, Bound: bound, Budget: budget / time.Duration(len(names))})
+	deadline := time.Now().Add(budget)
+	for i, n := range names {
+		// what is left of the budget is shared by the scenarios still to run
+		per := time.Until(deadline) / time.Duration(len(names)-i)
+		if per < 2*time.Second {
+			per = 2 * time.Second
+		}
+		st := explore.Explore(explore.Config{Scenario: key, Param: n, Bound: bound, Budget: per})
 		c.AddExplore(st)
 		if c.Failed() {
 			break
